@@ -177,7 +177,11 @@ def run_cli(c):
         _write(inp, c['in_lines'])
         if c.get('join_lines') is not None:
             _write(os.path.join(d, 'jt.csv'), c['join_lines'])
-        cmd = [sys.executable, '-m', 'rbql', '--query', c['q'], '--input', inp, '--delim', c['delim'], '--policy', c['policy']]
+        cmd = [sys.executable, '-m', 'rbql', '--query', c['q'], '--input', inp]
+        if not c.get('omit_delim'):
+            cmd += ['--delim', c['delim']]
+        if not c.get('omit_policy'):
+            cmd += ['--policy', c['policy']]
         if c.get('with_output', True):
             cmd += ['--output', outp]
         if c.get('with_headers'):
